@@ -115,7 +115,7 @@ PROPS = {
                       "C06_iter (entry-by-entry enumeration yields each entry once then the end marker, any mix of V1/V2), C06_stat, C06_dirsize, C06_names.",
     },
     "C09": {
-        "jobs": [{"cmd": "viso", "quick": 70, "thorough": 4000, "timeout": 3000}],
+        "jobs": [{"cmd": "viso", "quick": 50, "thorough": 4000, "timeout": 3000}],
         "rule": "generated images of trees with 0..25 files of boundary sizes (0,1,2047,2048,2049,64KiB+-1, random; a sparse file past 4 GiB in some) x "
                 "sequences of 5..45 Read/Seek/ReadAt operations with offsets at structural boundaries +-2 and lengths 1..1 MiB; the image internals "
                 "(fsBuf, file table, pad area) are taken from the real object through an overlay accessor; non-trivial = the sequence touches >= 2 zones; "
@@ -128,7 +128,7 @@ PROPS = {
                       "iterator's own counters; image internals in the differential come from the real object.",
     },
     "C10": {
-        "jobs": [{"cmd": "enc", "quick": 250, "thorough": 8000, "timeout": 3000}],
+        "jobs": [{"cmd": "enc", "quick": 120, "thorough": 8000, "timeout": 3000}],
         "rule": "images of 8..48 sectors (+ partial tail) with random content and disc key, region tables of 2..60 regions (adjacent regions, "
                 "regions from sector 1, to/beyond the last sector) and near-miss tables (count<2, first region not at 0, empty/reversed, overlap) x "
                 "sequences of 5..35 Read/Seek/ReadAt with unaligned offsets and lengths (1,15,16,17,512,2047..70000); half of the runs over an underlying "
